@@ -1,6 +1,6 @@
 (* Ingest: RecordManager.async_updates_from_response and the periodic purge
    (AsyncEngine._async_cache_cleanup), phase by phase. *)
-From ZC Require Import Model.Base Model.PyRec Model.Dict Model.Re Model.Cache Gen.Const Gen.DnsPure.
+From ZC Require Import Model.Base Model.PyRec Model.Dict Model.Re Model.Cache Gen.Const Gen.Sites Gen.DnsPure.
 
 (* RecordUpdate(new, old): old is a reference to the live cached object; the model keeps the
    identity and reads the object's current state from the phase-1 cache when a listener looks *)
@@ -19,8 +19,10 @@ Definition set_add (s : list pyrec) (r : pyrec) : list pyrec :=
   if existsb (fun x => gen_eq x r) s then s else s ++ [r].
 
 (* the PTR TTL floor; _DNS_PTR_MIN_TTL is the float 4500/4, required to be integral by the translator *)
-Definition apply_ptr_floor (r : pyrec) : pyrec :=
-  if negb (p_ttl r =? 0) && (p_type_ r =? C_TYPE_PTR) && (p_ttl r <? C_DNS_PTR_MIN_TTL)
+Definition apply_ptr_floor :=
+  Eval cbv beta iota delta [sop_apply site_ingest_ptr_min_ttl] in
+  fun (r : pyrec) =>
+  if negb (p_ttl r =? 0) && (p_type_ r =? C_TYPE_PTR) && sop_apply site_ingest_ptr_min_ttl (p_ttl r) C_DNS_PTR_MIN_TTL
   then set_lifetime r (p_created r) C_DNS_PTR_MIN_TTL else r.
 
 Definition is_address_type (t : Z) : bool := existsb (Z.eqb t) C_ADDRESS_RECORD_TYPES.
